@@ -4,6 +4,13 @@ C07 (extension) — the RESULTS of concurrent operations are those of a serial o
 `Props/C07.lean` is about the filesystem state under every schedule (no splice, whole records,
 valid content).  Here: what the operations *answer*.  Proofs in `Lemmas/Linearize.lean` (which
 imports `Props/C07` and `Props/C04`, hence this separate module).
+
+Terminology: "linearizable" / "serializable" is used here for "there is ONE serial order of the
+finished operations that explains all their answers and the final state" — what C07 asks for
+("some sequential ordering").  There is no real-time clause: the theorems do not claim that an
+operation that finished before another one started precedes it in that order (for the index
+operations it does hold, the linearization point of each being its last call, but it is not part
+of the statements).
 -/
 import Cacache.Lemmas.Linearize
 import Cacache.Lemmas.LinearizeLs
@@ -405,5 +412,100 @@ theorem write_write_removeHash_serializable {γ : Type} (hl : HexLen cfg) (i0 i1
       fs sched c0 c1 c2 :=
   TwoWriters.write_write_removeHash_serializable cfg env cache hl i0 i1 i2 fl0 fl1 a0 a1 key0 key1 d0 d1 hk0 hd0
     hk1 hd1 hcoll sri fs hH sched c0 c1 c2 f0 f1 f2
+
+/-! ### no finished insertion is lost -/
+
+/-- In a list with an element `x` satisfying `P`, the LAST element satisfying `P` is `x` or comes
+after `x`. -/
+theorem last_satisfying {α : Type} (P : α → Prop) (l : List α) (x : α) (hx : x ∈ l) (hP : P x) :
+    ∃ pre y post, l = pre ++ y :: post ∧ P y ∧ (∀ z ∈ post, ¬ P z) ∧ (y = x ∨ x ∈ pre) := by
+  induction l generalizing x with
+  | nil => cases hx
+  | cons a t ih =>
+    by_cases ht : ∃ z ∈ t, P z
+    · obtain ⟨z, hz, hPz⟩ := ht
+      rcases List.mem_cons.mp hx with rfl | hxt
+      · obtain ⟨pre, y, post, rfl, hy, hpost, _⟩ := ih z hz hPz
+        exact ⟨x :: pre, y, post, rfl, hy, hpost, Or.inr List.mem_cons_self⟩
+      · obtain ⟨pre, y, post, rfl, hy, hpost, hor⟩ := ih x hxt hP
+        exact ⟨a :: pre, y, post, rfl, hy, hpost, hor.imp id (List.mem_cons_of_mem _)⟩
+    · rcases List.mem_cons.mp hx with rfl | hxt
+      · exact ⟨[], x, t, rfl, hP, fun z hz hPz => ht ⟨z, hz, hPz⟩, Or.inl rfl⟩
+      · exact absurd ⟨x, hxt, hP⟩ ht
+
+/-- **No finished insertion is lost** — any number of concurrent `insert` / `delete` / `find`
+processes of any keys (same bucket or not) on a healthy index, every schedule.  If process `j` is
+an insertion of `key` and HAS FINISHED, then in the serial order `hist` that explains all answers
+(`index_ops_linearizable`) the last writer `j'` of `key` is `j` itself or a process placed AFTER
+`j`, `j'` has finished too, and every later lookup of `key` in the filesystem the concurrent
+execution left answers what `j'` wrote: the entry of `j'`'s insertion (`insEntry`: its integrity,
+size, metadata, and time), or "absent" if `j'` is a removal.  In particular (`post`-free case) if
+no other process writes `key`, the lookup answers `j`'s entry whatever the other processes append
+to the same bucket. -/
+theorem no_finished_insert_lost (ops : List IOp) (hops : ∀ op ∈ ops, OpWF cfg op) (fs : FS)
+    (h : HealthyIndex cfg cache fs) (sched : List Nat) (j : Nat) (key : Bytes) (o : WriteOpts)
+    (out : Out) (hj : ops[j]? = some (.ins key o))
+    (hfin : FinishedWith env (ops.map (opProg cfg cache)) fs sched j out) :
+    ∃ hist : List (Nat × Out), (hist.map Prod.fst).Nodup ∧
+      (∀ i r, (i, r) ∈ hist ↔ FinishedWith env (ops.map (opProg cfg cache)) fs sched i r) ∧
+      Legal (specAt env ops) hist (absIndex cfg cache fs)
+        (absIndex cfg cache (interleave env (ops.map (opProg cfg cache)) fs sched).2) ∧
+      ∃ pre j' out' post, hist = pre ++ (j', out') :: post ∧
+        (j' = j ∨ (j, out) ∈ pre) ∧
+        (∀ x ∈ post, ¬ (ops.getD x.1 (.look [])).writes key) ∧
+        ((∃ o', ops[j']? = some (.ins key o') ∧ ∀ env',
+            (run env' (find cfg cache key)
+              (interleave env (ops.map (opProg cfg cache)) fs sched).2).1 =
+              .ok (insEntry env key o')) ∨
+         (ops[j']? = some (.del key) ∧ ∀ env',
+            (run env' (find cfg cache key)
+              (interleave env (ops.map (opProg cfg cache)) fs sched).2).1 = .ok none)) := by
+  obtain ⟨hH, hist, hnd, hleg, hiff⟩ :=
+    Linearize.index_ops_linearizable cfg env cache ops hops fs h sched
+  refine ⟨hist, hnd, hiff, hleg, ?_⟩
+  have hmem : (j, out) ∈ hist := (hiff j out).mpr hfin
+  have hPj : (ops.getD (j, out).1 (.look [])).writes key := by
+    show (ops.getD j (.look [])).writes key
+    rw [List.getD_eq_getElem?_getD, hj]; rfl
+  obtain ⟨pre, y, post, hsplit, hy, hpost, hor⟩ :=
+    last_satisfying (fun x : Nat × Out => (ops.getD x.1 (.look [])).writes key) hist (j, out) hmem hPj
+  obtain ⟨j', out'⟩ := y
+  refine ⟨pre, j', out', post, hsplit, ?_, hpost, ?_⟩
+  · rcases hor with e | e
+    · left; exact congrArg Prod.fst e
+    · right; exact e
+  · have hs := Linearize.legal_specRun env ops hist _ _ hleg
+    have hval : absIndex cfg cache (interleave env (ops.map (opProg cfg cache)) fs sched).2 key =
+        (specStep env (specRun (pre.map (fun x => (env, ops.getD x.1 (.look []))))
+          (absIndex cfg cache fs)).2 (ops.getD j' (.look []))).1 key := by
+      have h2 := congrArg (fun x => x.2 key) hs
+      simp only at h2
+      rw [← h2, hsplit, List.map_append, List.map_cons]
+      exact specRun_last _ _ env _ _ key (fun x hx => by
+        obtain ⟨z, hz, rfl⟩ := List.mem_map.mp hx
+        exact hpost z hz)
+    have hfind : ∀ env', (run env' (find cfg cache key)
+        (interleave env (ops.map (opProg cfg cache)) fs sched).2).1 =
+        .ok (absIndex cfg cache (interleave env (ops.map (opProg cfg cache)) fs sched).2 key) :=
+      fun env' => (run_find cfg cache env' key _ hH).1
+    have hy' : (ops.getD j' (.look [])).writes key := hy
+    rw [List.getD_eq_getElem?_getD] at hy' hval
+    cases hget : ops[j']? with
+    | none => rw [hget] at hy'; exact absurd hy' (by simp [IOp.writes])
+    | some op' =>
+      rw [hget] at hy' hval
+      simp only [Option.getD_some] at hy' hval
+      cases op' with
+      | ins k o' =>
+        have hk : k = key := hy'
+        subst hk
+        refine Or.inl ⟨o', rfl, fun env' => ?_⟩
+        rw [hfind env', hval]; simp [specStep]
+      | del k =>
+        have hk : k = key := hy'
+        subst hk
+        refine Or.inr ⟨rfl, fun env' => ?_⟩
+        rw [hfind env', hval]; simp [specStep]
+      | look k => exact absurd hy' (by simp [IOp.writes])
 
 end Cacache.C07x
